@@ -83,7 +83,13 @@ func (s *Sys) CompareDevices(dev map[string]Tree, prop, oracle string, skip ...m
 		if c == nil || !s.connUp[t] || (len(skip) > 0 && skip[0][t]) {
 			continue
 		}
-		if c.Status.State != configapi.ConfigurationStatus_SYNCHRONIZED || c.Status.Applied.Mastership.Term != c.Status.Mastership.Term {
+		if s.Plan.Knobs.Persistent[t] {
+			// a persistent target keeps its configuration and is never re-synchronised; it never restarts empty here, so at
+			// quiescence it holds exactly the changes applied to it
+			if c.Status.State != configapi.ConfigurationStatus_PERSISTED {
+				continue
+			}
+		} else if c.Status.State != configapi.ConfigurationStatus_SYNCHRONIZED || c.Status.Applied.Mastership.Term != c.Status.Mastership.Term {
 			continue
 		}
 		want := dev[t]
